@@ -382,10 +382,10 @@ impl BuiltInFunction {
                 };
 
                 {
-                    let mut v_original = v_original_shared.0.borrow_mut();
-                    let mut v_add = v_add.0.borrow_mut();
+                    // copy first: the argument keeps its elements, and it may be the receiver itself
+                    let to_add = v_add.0.borrow().to_vec();
 
-                    v_original.append(v_add.as_mut());
+                    v_original_shared.0.borrow_mut().extend(to_add);
                 }
 
                 Ok((Some(Primitive::Vector(v_original_shared.clone())), None))
